@@ -7,7 +7,7 @@ import "sync"
 // VerifStart runs startServer (listen on the configured scheme) as Run does, without NRF registration.
 func (s *Server) VerifStart(wg *sync.WaitGroup) {
 	wg.Add(1)
-	go s.startServer(wg)
+	go s.{{sbi.startServer}}(wg)
 }
 
 // VerifStop shuts the listener down again.
